@@ -26,9 +26,7 @@ def handleFnGen4 : Handler := fun st op args =>
     some (st, withPos ptok fun p =>
       if wtok == "default" then
         -- `MakeEvaluator(size, nil)`: `&DefaultWeights[size]` of the table the regenerated `init()` builds
-        match genDefaultWeights with
-        | none => "panic"
-        | some t => if h : p.cfg.size < t.size then optInt (genEvaluate p.c t[p.cfg.size] p) else "panic"
+        optInt (genEvaluateDefault p.c p)
       else withWeights wtok p.cfg.size fun w => optInt (genEvaluate p.c w.arr p))
   | "fn.evalparts", [wtok, ptok] =>
     some (st, withPos ptok fun p => withWeights wtok p.cfg.size fun w =>
